@@ -315,7 +315,7 @@ func CheckExec(prop, tier string) int {
 				}
 			}
 			path := rep.WriteReplay(prop, bundle)
-			bundle.Repro = fmt.Sprintf("/verif/run.sh %s --replay %s", prop, path)
+			bundle.Repro = fmt.Sprintf("%s/run.sh %s --replay %s", rep.Root, prop, path)
 			if bundle.Confirmed {
 				rp.Note("violation %s/%s on program %s: %s", prop, v.Sig, progs[k.prog].ID, TraceString(r.Trace))
 				rp.Violation(path)
